@@ -32,6 +32,7 @@ type rsCase struct {
 	// was queued before the restart must arrive on its own once the endpoint
 	// is healthy. RecoverEarly: the endpoint becomes healthy while the server
 	// is down (otherwise shortly after it is back).
+	NameTail     int  `json:"name_tail,omitempty"` // index into hostileTail, appended to hook and twin name
 	Quiet        bool `json:"quiet,omitempty"`
 	RecoverEarly bool `json:"recover_early,omitempty"`
 }
@@ -58,6 +59,7 @@ func drawRSCase(rt *rapid.T) rsCase {
 		p.Fence.Cmd = "NEARBY"
 	}
 	p.Meta = rapid.IntRange(0, 3).Draw(rt, "meta") == 0
+	p.NameTail = drawTail(rt, "nametail", allowInvalidNames)
 	p.Down = rapid.SampledFrom([]string{"500", "reset"}).Draw(rt, "down")
 	nstops := 1
 	if rapid.IntRange(0, 3).Draw(rt, "two") == 0 {
@@ -105,7 +107,8 @@ func runRestart(p rsCase) *outcome {
 		return o
 	}
 	dir := proc.Dir
-	key, hook, twin := fmt.Sprintf("rk%d", n), fmt.Sprintf("rh%d", n), fmt.Sprintf("rt%d", n)
+	tail := tailOf([]int{p.NameTail}, 0)
+	key, hook, twin := fmt.Sprintf("rk%d", n), fmt.Sprintf("rh%d", n)+tail, fmt.Sprintf("rt%d", n)+tail
 	tw := &twinReader{name: twin, done: make(chan struct{}), sync: make(chan struct{}, 8)}
 	ep, err := newEndpoint(nil, &tw.count, "/hook/r")
 	if err != nil {
@@ -398,7 +401,7 @@ func runRestart(p rsCase) *outcome {
 	if v, err := ctl.Do("PUBLISH", twin, "END"); err != nil || v.Kind != ':' || v.Int != 1 {
 		return harness("publish END", fmt.Errorf("%v %v", v, err))
 	}
-	r := &whRun{o: o, p: whCase{NKeys: 1, Hooks: []whHook{{Fence: p.Fence, Meta: p.Meta}}}, eps: []*endpoint{ep}, twins: []*twinReader{tw}, t0: t0}
+	r := &whRun{o: o, p: whCase{NKeys: 1, Hooks: []whHook{{Fence: p.Fence, Meta: p.Meta, NameTail: p.NameTail}}}, eps: []*endpoint{ep}, twins: []*twinReader{tw}, t0: t0}
 	r.verify()
 	o.ntKey = ""
 	if o.key == "" && o.inconclusive == "" && queuedAtStop > 0 && (laterNotified || p.Quiet) {
